@@ -164,3 +164,17 @@ impl<M: Math, P: Point<M>> Collector<M, P> for AcceptanceRateCollector {
         self.max_energy_error = 0.;
     }
 }
+
+#[cfg(nuts_rs_verif)]
+impl DualAverage {
+    /// Verification hook: `(log_step, log_step_adapted, hbar, mu, count)`.
+    pub fn verif_fields(&self) -> (f64, f64, f64, f64, u64) {
+        (
+            self.log_step,
+            self.log_step_adapted,
+            self.hbar,
+            self.mu,
+            self.count,
+        )
+    }
+}
